@@ -9,6 +9,7 @@ import OV.Lemmas.C05Shape
 import OV.Lemmas.C05Algebra
 import OV.Lemmas.C05Matmul
 import OV.Lemmas.C05Expand
+import OV.Props.C09
 import Mathlib.Order.MinMax
 import Mathlib.Tactic.Order
 import Mathlib.Tactic.SplitIfs
@@ -1043,11 +1044,39 @@ end More
 section ExpandBinary
 open OV.C05.Linalg OV.C05.Shape OV.Lemmas.C05Expand
 
-/-- **`expand_before_binary_op_rules`, shapes** — for all ranks and dimension sizes (0 and 1 included): when the guard
-`_check_expand_removable` (strategy 1) passes and the original `Op(Expand(x, e), y)` is valid with result shape `r`, the
-rewritten `Op(x, y)` is valid with the same result shape.  `_partial`: static annotations and a constant target only
-(strategies 2/3 and symbolic dims are C09's `expand_removable_sound`; here they are decided by correspondence + numeric search). -/
-theorem expand_before_binary_shape_sound_partial (x y : List Nat) (e : List Int) (t r : List Nat)
+/-- **`expand_before_binary_op_rules` — all three strategies, symbolic annotations, every valuation σ.**  The rule objects
+share `_check_expand_removable`; its one restatement is `OV.C09.expandRemovable` (strategy 1: constant target; 2: annotation of the
+Expand output; 3: annotation of the binary op's output), which C05's driver now runs for every generated host (constant and
+run-time targets, symbolic dims) against the real rules.  Whenever a rule of the set fires (`expandRuleFires`: the verdict is
+removable and the rule object exists — no ExpandFirst for PRelu), then for **every** valuation `σ` of the symbolic dims under
+which the annotations are truthful, and every run-time target `le` (equal to the constant when there is one): if the original
+`Op(Expand(x, le), y)` is valid with result shape `lout`, so is `Op(x, y)`, with the same result shape.  Proved by C09
+(`OV.Props.C09.expand_removable_sound`), imported, not restated. -/
+theorem expand_before_binary_sound (op : String) (side : Nat) (x y : OV.C09.Shape) (const : Option (List Int))
+    (eOut bOut : Option OV.C09.Shape)
+    (hfire : OV.C09.expandRuleFires op side true (OV.C09.expandRemovable (some x) (some y) const eOut bOut) = true)
+    (σ : String → Nat) (lx ly le lE lout : List Int) (hx : OV.C09.Admits σ x lx) (hy : OV.C09.Admits σ y ly)
+    (hconst : ∀ c, const = some c → le = c)
+    (hexp : OV.C09.broadcast lx le = some lE) (hres : OV.C09.broadcast lE ly = some lout)
+    (hE : ∀ E, const = none → eOut = some E → OV.C09.Admits σ E lE)
+    (hO : ∀ O, const = none → eOut = none → bOut = some O → OV.C09.Admits σ O lout) :
+    OV.C09.broadcast lx ly = some lout := by
+  have hrem : (OV.C09.expandRemovable (some x) (some y) const eOut bOut).removable = true := by
+    unfold OV.C09.expandRuleFires at hfire
+    simp only [Bool.and_eq_true] at hfire
+    exact hfire.1
+  exact OV.Props.C09.expand_removable_sound x y const eOut bOut hrem σ lx ly le lE lout hx hy hconst hexp hres hE hO
+
+/-- No `ExpandFirst` rule exists for PRelu (commit dd5f7df): the exported rule set never removes an Expand on PRelu's X. -/
+theorem expand_before_binary_no_prelu_first (v : OV.C09.ExpandVerdict) :
+    OV.C09.expandRuleFires "PRelu" 0 true v = false := by
+  unfold OV.C09.expandRuleFires; simp
+
+/-- Static instance on C05's own strategy-1 model (the one the element-level theorem below is stated on; the driver checks on every
+constant-target case that it agrees with `OV.C09.expandRemovable`): for all ranks and dimension sizes (0 and 1 included), when
+the guard passes and the original `Op(Expand(x, e), y)` is valid with result shape `r`, the rewritten `Op(x, y)` is valid with the
+same result shape. -/
+theorem expand_before_binary_static_shape_sound (x y : List Nat) (e : List Int) (t r : List Nat)
     (hguard : expandRemovableConst (some (x.map Dim.known)) (some (y.map Dim.known)) e = true)
     (ht : specBroadcast x (e.map Int.toNat) = some t) (hr : specBroadcast t y = some r) :
     specBroadcast x y = some r :=
@@ -1237,6 +1266,12 @@ example : padConvRun { xRank := some 3, mode := none, pads := .const [0, 0, 1, 0
 -- gemm: C of shape [4] fits (2,4)
 example : matmulAddCheck (some 2) (some 2) 2 4 (some [4]) = true ∧ matmulAddCheck (some 2) (some 2) 2 4 (some []) = true ∧
     matmulAddCheck (some 2) (some 2) 2 4 (some [2, 1]) = true ∧ matmulAddCheck (some 2) (some 3) 2 4 (some [4]) = false := by decide
+
+-- expand_before_binary_sound: strategy 2 with a symbolic dim, strategy 3, strategy 1; and a refusal
+example : OV.C09.expandRuleFires "Add" 0 true (OV.C09.expandRemovable (some [.sym "N", .known 1]) (some [.known 3]) none (some [.sym "N", .known 3]) none) = true ∧
+    OV.C09.expandRuleFires "Mul" 1 true (OV.C09.expandRemovable (some [.sym "N", .known 1]) (some [.known 1, .sym "M"]) none none (some [.sym "N", .sym "M"])) = true ∧
+    OV.C09.expandRuleFires "Sub" 0 true (OV.C09.expandRemovable (some [.known 1]) (some [.known 3]) (some [3]) none none) = true ∧
+    OV.C09.expandRuleFires "Add" 0 true (OV.C09.expandRemovable (some [.sym "N"]) (some [.known 3]) none (some [.sym "K"]) none) = false := by decide
 
 end NonVacuity
 
